@@ -76,3 +76,8 @@ func specFloatValueIs(v Value, f float64) bool {
 	x, ok := v.(valueFloat)
 	return ok && specSameFloat(float64(x), f)
 }
+
+func specIsNegZero(v Value) bool {
+	f, ok := v.(valueFloat)
+	return ok && float64(f) == 0 && math.Signbit(float64(f))
+}
